@@ -551,7 +551,7 @@ func build(tier string) ([]runner.Instance, time.Duration) {
 	for _, mode := range []string{"no-quiesce", "race-add"} {
 		for n := 1; n <= 2; n++ {
 			for _, oc := range combos([]string{"ok", "error"}, n) {
-				add("cleanup", fmt.Sprintf("cleanup/%s/%v", mode, oc), bound+1, cleanupMode(oc, make([]bool, n), 2, mode))
+				add("cleanup", fmt.Sprintf("cleanup/%s/%v", mode, oc), bound+2-n, cleanupMode(oc, make([]bool, n), 2, mode))
 			}
 		}
 	}
